@@ -82,6 +82,24 @@ func shapeText(l string) string {
 		return rep("\xff", 5000)
 	case "bin5001":
 		return rep("\xff", 5001)
+	case "caret":
+		return "a^b"
+	case "bracket":
+		return "t[1]"
+	case "backslash":
+		return "a\\b"
+	case "backtick":
+		return "a`b"
+	case "at":
+		return "a@b"
+	case "brace":
+		return "a{b}"
+	case "colon":
+		return "a:b"
+	case "plus":
+		return "a+b"
+	case "upperlower":
+		return "AZaz09"
 	case "ok":
 		return "a"
 	case "long300":
